@@ -17,32 +17,44 @@ Proof.
 Qed.
 
 (* the search without any memo *)
-Fixpoint find0 (t : tree) (st : path -> list path) (rp : list key) (k : key) : option path :=
+Fixpoint find0 (sd : bool) (t : tree) (st : path -> list path) (rp : list key) (k : key) (ks : list key) : option path :=
   let p := rev rp in
-  if exists_cls t (p ++ [k]) then Some (p ++ [k])
+  if exists_cls t (p ++ k :: ks) then Some (p ++ k :: ks)
   else
-    let up := match rp with [] => None | _ :: rp' => find0 t st rp' k end in
-    match star_search t (st p) k None with Some q => Some q | None => up end.
+    let up := match rp with [] => None | _ :: rp' => find0 sd t st rp' k ks end in
+    match star_search t (st p) k None with
+    | Some q => if sd then (if exists_cls t (q ++ ks) then Some (q ++ ks) else up) else Some q
+    | None => up
+    end.
 
-(* the memo only caches what the un-memoised search returns (induction on the climb) *)
-Lemma find_memo_eq t xm : memo_sound t xm ->
-  forall rp k, find t xm rp k = find0 t (fun p => stars (xget xm p)) rp k.
+(* the memo only caches what the un-memoised search returns (induction on the climb): for every name
+   when the unqualified-import stage descends (sd = true), and for simple names in any case *)
+Lemma find_memo_eq sd t xm ks : memo_sound t xm -> sd = true \/ ks = [] ->
+  forall rp k, find sd t xm rp k ks = find0 sd t (fun p => stars (xget xm p)) rp k ks.
 Proof.
-  intros Hs. induction rp as [|x rp IH]; intros k; cbn [find find0].
-  - destruct (exists_cls t (rev [] ++ [k])); [reflexivity|].
-    destruct (kassoc k (memo (xget xm (rev [])))) as [q|] eqn:M; [|reflexivity].
-    pose proof (Hs _ _ _ M) as S. rewrite S.
-    destruct (star_search_exists _ _ _ _ _ S) as [E|E]; [discriminate|]. rewrite E. reflexivity.
-  - destruct (exists_cls t (rev (x :: rp) ++ [k])); [reflexivity|].
-    destruct (kassoc k (memo (xget xm (rev (x :: rp))))) as [q|] eqn:M.
-    + pose proof (Hs _ _ _ M) as S. rewrite S.
-      destruct (star_search_exists _ _ _ _ _ S) as [E|E]; [discriminate|]. rewrite E. reflexivity.
-    + rewrite IH. reflexivity.
+  intros Hs Hc.
+  assert (Hstage : forall p k up, 
+    match kassoc k (memo (xget xm p)) with
+    | Some q => if exists_cls t (q ++ ks) then Some (q ++ ks) else up
+    | None => match star_search t (stars (xget xm p)) k None with
+              | Some q => if sd then (if exists_cls t (q ++ ks) then Some (q ++ ks) else up) else Some q
+              | None => up end
+    end =
+    match star_search t (stars (xget xm p)) k None with
+    | Some q => if sd then (if exists_cls t (q ++ ks) then Some (q ++ ks) else up) else Some q
+    | None => up end).
+  { intros p k up. destruct (kassoc k (memo (xget xm p))) as [q|] eqn:M; [|reflexivity].
+    pose proof (Hs _ _ _ M) as S. rewrite S. destruct Hc as [->| ->]; [reflexivity|].
+    destruct sd; [reflexivity|]. rewrite app_nil_r.
+    destruct (star_search_exists _ _ _ _ _ S) as [E|E]; [discriminate|]. rewrite E. reflexivity. }
+  induction rp as [|x rp IH]; intros k; cbn [find find0].
+  - destruct (exists_cls t (rev [] ++ k :: ks)); [reflexivity|]. apply Hstage.
+  - destruct (exists_cls t (rev (x :: rp) ++ k :: ks)); [reflexivity|]. rewrite IH. apply Hstage.
 Qed.
 
-Lemma find0_ext t st1 st2 : (forall p, st1 p = st2 p) -> forall rp k, find0 t st1 rp k = find0 t st2 rp k.
+Lemma find0_ext sd t st1 st2 : (forall p, st1 p = st2 p) -> forall rp k ks, find0 sd t st1 rp k ks = find0 sd t st2 rp k ks.
 Proof.
-  intros H. induction rp as [|x rp IH]; intros k; cbn [find0]; rewrite H; [reflexivity|].
+  intros H. induction rp as [|x rp IH]; intros k ks; cbn [find0]; rewrite H; [reflexivity|].
   rewrite IH. reflexivity.
 Qed.
 
@@ -97,27 +109,62 @@ Qed.
 Lemma nstar_trans t a b c : nstar t a b -> nstar t b c -> nstar t a c.
 Proof. induction 1; auto. intros. econstructor; eauto. Qed.
 
+(* the programs covered: every lookup when sd = true; only simple-name lookups when sd = false *)
+Inductive okprog {R} (sd : bool) : prog R -> Prop :=
+| ok_ret r : okprog sd (Ret r)
+| ok_find rp k ks c : sd = true \/ ks = [] -> (forall x, okprog sd (c x)) -> okprog sd (AskFind rp k ks c)
+| ok_const p s c : (forall x, okprog sd (c x)) -> okprog sd (AskConst p s c)
+| ok_data p c : (forall x, okprog sd (c x)) -> okprog sd (AskData p c).
+
+Lemma okprog_true {R} : forall pr : prog R, okprog true pr.
+Proof. induction pr; constructor; auto. Qed.
+
 (* formerly the premise res_neutral: no request can tell the difference *)
-Lemma exec_neutral {R} t xm xm' : memo_sound t xm -> nstar t xm xm' ->
-  forall pr : prog R, exec pr t xm' = exec pr t xm.
+Lemma exec_neutral {R} sd t xm xm' : memo_sound t xm -> nstar t xm xm' ->
+  forall pr : prog R, okprog sd pr -> exec sd pr t xm' = exec sd pr t xm.
 Proof.
   intros Hs Hn. destruct (nstar_obs _ _ _ Hn Hs) as (Hs' & St & Ce).
-  induction pr as [r|rp k c IH|p s c IH|p c IH]; cbn [exec]; auto.
+  induction 1 as [r|rp k ks c Hc Hk IH|p s c Hk IH|p c Hk IH]; cbn [exec]; auto.
   - rewrite IH. f_equal. f_equal.
-    rewrite (find_memo_eq _ _ Hs'), (find_memo_eq _ _ Hs). apply find0_ext. exact St.
+    rewrite (find_memo_eq _ _ _ _ Hs' Hc), (find_memo_eq _ _ _ _ Hs Hc). apply find0_ext. exact St.
   - rewrite IH, Ce. reflexivity.
+Qed.
+
+(* with sd = false the memo IS visible to dotted lookups (the defect repaired by C05_import_dotted.diff) *)
+Definition exd_tree : tree :=
+  [ ([], Info (CD [] 0) None None); ([1], Info (CD [] 0) (Some (0, [])) None);
+    ([1; 2], Info (CD [] 0) (Some (0, [1])) None); ([1; 2; 3], Info (CD [] 0) (Some (0, [1; 2])) None);
+    ([5], Info (CD [] 0) (Some (0, [])) None) ].
+Definition exd_xm0 : xmap := [ ([5], Ext [[1]] [] [] false) ].
+Definition exd_xm1 : xmap := xset exd_xm0 [5] (Ext [[1]] [(2, [1; 2])] [] false).
+Lemma dotted_refuted :
+  memo_sound exd_tree exd_xm0 /\ nstar exd_tree exd_xm0 exd_xm1 /\
+  find false exd_tree exd_xm0 [5] 2 [3] = Some [1; 2] /\
+  find false exd_tree exd_xm1 [5] 2 [3] = Some [1; 2; 3] /\
+  find true exd_tree exd_xm0 [5] 2 [3] = Some [1; 2; 3] /\
+  find true exd_tree exd_xm1 [5] 2 [3] = Some [1; 2; 3].
+Proof.
+  split.
+  { intros p k q M. unfold xget, exd_xm0 in M. cbn [assoc] in M.
+    destruct (path_dec p [5]); discriminate M. }
+  split.
+  { eapply nstar_step; [exact (NS_memo exd_tree exd_xm0 [5] 2 [1; 2] eq_refl)|apply nstar_refl]. }
+  repeat split; vm_compute; reflexivity.
 Qed.
 
 Section Frame.
   Variable R : Type.
   (* the program flatten/generate runs for class p: ARBITRARY (no hypothesis) *)
   Variable prog_of : path -> prog R.
+  (* the unqualified-import stage as coded (read from ast.py on every run) *)
+  Variable sd : bool.
+  Hypothesis prog_ok : forall p, okprog sd (prog_of p).   (* vacuous when sd = true: okprog_true *)
 
   Definition state : Type := world * xmap.
 
   (* one request on the state (live trees, neutral fields of the parsed tree) *)
   Definition fstep (cp : bool) (st : state) (p : path) (st' : state) (r : R) : Prop :=
-    exists t0, nth_error (fst st) 0 = Some t0 /\ r = exec (prog_of p) t0 (snd st) /\
+    exists t0, nth_error (fst st) 0 = Some t0 /\ r = exec sd (prog_of p) t0 (snd st) /\
       nstar t0 (snd st) (snd st') /\
       match lookup cp (fst st) p with
       | None => fst st' = fst st
@@ -141,7 +188,7 @@ Section Frame.
      neutral fields move, by the three exact writes *)
   Lemma frame st p st' r t0 :
     nth_error (fst st) 0 = Some t0 -> fstep true st p st' r ->
-    r = exec (prog_of p) t0 (snd st) /\ nth_error (fst st') 0 = Some t0 /\ nstar t0 (snd st) (snd st').
+    r = exec sd (prog_of p) t0 (snd st) /\ nth_error (fst st') 0 = Some t0 /\ nstar t0 (snd st) (snd st').
   Proof.
     destruct st as [w xm], st' as [w' xm']. unfold fstep. cbn [fst snd].
     intros Ht (t & Ht' & Hr & Hn & H). pose proof (eq_trans (eq_sym Ht') Ht) as Et. injection Et as ->.
@@ -159,7 +206,7 @@ Section Frame.
   (* sequences: every request of any sequence gives what it gives on the initial state *)
   Lemma sequences_gen : forall ps st st' rs, fseq true st ps st' rs ->
     forall t0 xm0, nth_error (fst st) 0 = Some t0 -> memo_sound t0 xm0 -> nstar t0 xm0 (snd st) ->
-    rs = map (fun p => exec (prog_of p) t0 xm0) ps.
+    rs = map (fun p => exec sd (prog_of p) t0 xm0) ps.
   Proof.
     induction 1 as [st|st p st1 r ps st2 rs Hstep Hseq IH]; intros t0 xm0 Ht Hs Hn; [reflexivity|].
     destruct (frame _ _ _ _ _ Ht Hstep) as (-> & Ht' & Hn').
@@ -188,15 +235,15 @@ Qed.
 
 Lemma refuted_no_copy :
   exists st st1 st2 p r1 r2,
-    fseq (option cdata) ex5_prog false st [p; p] st2 [r1; r2] /\
-    fstep (option cdata) ex5_prog false st p st1 r1 /\ r1 <> r2.
+    fseq (option cdata) ex5_prog true false st [p; p] st2 [r1; r2] /\
+    fstep (option cdata) ex5_prog true false st p st1 r1 /\ r1 <> r2.
 Proof.
   exists ([ex5_tree], []), ([ex5_tree'], []), ([ex5_tree'], []), [1], (Some (CD [4] 1)), (Some (CD [] 1)).
-  assert (S1 : fstep (option cdata) ex5_prog false ([ex5_tree], []) [1] ([ex5_tree'], []) (Some (CD [4] 1))).
+  assert (S1 : fstep (option cdata) ex5_prog true false ([ex5_tree], []) [1] ([ex5_tree'], []) (Some (CD [4] 1))).
   { exists ex5_tree. split; [reflexivity|]. split; [reflexivity|]. split; [apply nstar_refl|].
     change (lookup false (fst ([ex5_tree], @nil (path * ext))) [1]) with (Some ([ex5_tree], (0, [1]))).
     apply ex5_footprint. }
-  assert (S2 : fstep (option cdata) ex5_prog false ([ex5_tree'], []) [1] ([ex5_tree'], []) (Some (CD [] 1))).
+  assert (S2 : fstep (option cdata) ex5_prog true false ([ex5_tree'], []) [1] ([ex5_tree'], []) (Some (CD [] 1))).
   { exists ex5_tree'. split; [reflexivity|]. split; [reflexivity|]. split; [apply nstar_refl|].
     change (lookup false (fst ([ex5_tree'], @nil (path * ext))) [1]) with (Some ([ex5_tree'], (0, [1]))).
     split; [apply le_n|]. intros ti t1 H. exists t1. repeat split; auto. }
